@@ -165,15 +165,16 @@ def _flatten_previous(op, x, testers, context,
     # (if child is terminal)
     # added benefit: shares some history vars among subformulas
     strong = (op == '--X')
+    # a constant has a previous value only
+    # after the first step, so needs a tester too
     propagate = (
-        len(x) == 1)
+        len(x) == 1 and x.type == 'var')
     if propagate:
         previous += 1
         return x.flatten(testers=testers, context=context,
                          previous=previous, strong=strong, *arg, **kw)
     # create tester here
     assert context == 'bool', context
-    assert len(x) > 1, 'operand is an operator'
     expr = x.flatten(testers=testers, context=context, *arg, **kw)
     # bottom-up counting is safe
     # `len` *must* be called after `flatten`
